@@ -670,7 +670,7 @@ func c20History(e *c20Expect, upto int) string {
 func init() {
 	register(&Property{
 		ID: "C20", Plain: true, Race: true, Level: "exploration",
-		Rule: "cases = rapid-generated histories: 1-4 queries sharing one caller-owned variable map (optionally pre-set), each over 0-5 rows (or FROM dual) with 1-7 select items interleaving SETVAR(k, column/nullable column/literal/NULL/expression/GETVAR(k')) and GETVAR(k) over 1-3 keys with plain columns, nested (SELECT GETVAR(k) FROM dual) reads, CASE arms that write, IF over reads, keys written as strings/numbers/expressions, look-alike values (1, '1', TRUE, 'true', NULL, '<nil>'), ASYNC/SPINASYNC stub co-runners and ASYNC user code writing another key of the same variable context (those histories run in the -race child) under simulated latencies, np/walk/pct/sync schedules and adversarial map orders, optional WHERE; a sequential per-key register model replays the history in (query, row, item) order and must equal every GETVAR column, the absence of SETVAR columns and the caller's map after each Exec; non-trivial = >=2 tasks runnable at some yield or a non-identity map order applied; distinct = distinct case-file hash; SETVAR in nested selects, awaited writes, a second Exec on the same Query, array-of-arrays sources, ORDER BY on an unselected column",
+		Rule: "cases = rapid-generated histories: 1-4 queries sharing one caller-owned variable map (optionally pre-set), each over 0-5 rows (or FROM dual) with 1-7 select items interleaving SETVAR(k, column/nullable column/literal/NULL/expression/GETVAR(k')) and GETVAR(k) over 1-3 keys with plain columns, nested (SELECT GETVAR(k) FROM dual) reads, CASE arms that write, IF over reads, keys written as strings/numbers/expressions, look-alike values (1, '1', TRUE, 'true', NULL, '<nil>'), ASYNC/SPINASYNC stub co-runners and ASYNC user code writing another key of the same variable context (those histories run in the -race child) under simulated latencies, np/walk/pct/sync schedules and adversarial map orders, optional WHERE; a sequential per-key register model replays the history in (query, row, item) order and must equal every GETVAR column, the absence of SETVAR columns and the caller's map after each Exec; non-trivial = >=2 tasks runnable at some yield or a non-identity map order applied; distinct = distinct case-file hash; SETVAR in nested selects, awaited writes, a second Exec on the same Query, array-of-arrays sources, ORDER BY on an unselected column; sources mixing objects and arrays of objects (rows in source order), non-ASCII keys and values, one query in five through the PostgreSQL-dialect pre-processor, GROUP BY .. HAVING with aliased SETVAR items (the select list runs once per group that passes)",
 		Gen:  genC20, Eval: evalC20, QuickChecks: 1000,
 		Assumptions: []string{
 			"SETVAR/GETVAR are immediate functions evaluated on the client task, so there is no concurrent register history to linearise: the simulator contributes the history search, the model, and co-runner goroutines/latencies/map orders that must not disturb evaluation order",
